@@ -165,6 +165,26 @@ def subharnesses(tier):
                         'sym_valid_until': pv == 'lease'}
                   subs.append(('probe-%s-%s-%s-%s' % (topo, g1.ptag(res), pv,
                                                       hv), spec))
+    # the probe needs an identity: one is free exactly when fewer members of
+    # its group hold one than the group's count - also after a holder lost its
+    # server to the loader and was deleted before the next cycle
+    for topo in ptopos[:1]:
+        for pv, pre in (('identity', []),
+                        ('identity_rmserver_rmapp',
+                         [['remove_server', 0], ['remove_app', 0]]),
+                        ('identity_rmapp', [['remove_app', 0]])):
+            for count in (1, 2):
+                spec = {'mode': 'probe', 'topo': topo, 'D': 1, 'havoc': 'agg',
+                        'servers': [{} for _ in g1.TOPOS[topo][1]],
+                        'allocs': [{'path': [], 'label': '_default'}],
+                        'igroups': {'g': count},
+                        'apps': [{'place': 0, 'ig': 'g', 'ident': 0},
+                                 {'place': 1},
+                                 {'absent': True, 'place': None, 'ig': 'g',
+                                  'priority': 1}],
+                        'pre_events': pre, 'event': ['none'], 'pv': pv,
+                        'sym_valid_until': False}
+                subs.append(('probe-%s-%s-n%d' % (topo, pv, count), spec))
     # two pending instances of the probe's shape fail ahead of it in every
     # cycle (demands symbolic and independent per dimension, so they may be
     # incomparable): what is remembered about their failures must not hide a
@@ -234,6 +254,14 @@ def _fits(W, app, srv):
         if not cnt < app.affinity.limits[node.level]:
             return z3.BoolVal(False)
         node = node.parent
+    if app.identity_group:
+        # an identity is free iff fewer members hold one than the count
+        grp = W.cell.identity_groups.get(app.identity_group)
+        held = [a for a in W.cell.apps.values()
+                if a.identity_group == app.identity_group and
+                a.identity is not None and a is not app]
+        if grp is None or len(held) >= W.spec['igroups'][app.identity_group]:
+            return z3.BoolVal(False)
     conds = [S.z(app.demand[k]) <= S.z(srv.free_capacity[k])
              for k in range(W.D)]
     if app.lease:
